@@ -202,7 +202,12 @@ class BleAdvPduReceived(PbMessageWrapper):
             # Search advertisement type
             for adv_class in SCAPY_CORR_ADV_INV:
                 if  packet.haslayer(adv_class):
-                    adv_data = b''.join([bytes(x) for x in packet.getlayer(adv_class).data])
+                    if adv_class is BTLE_ADV_DIRECT_IND:
+                        # Directed advertisement: the payload following AdvA is the
+                        # initiator address (InitA), there is no advertising data.
+                        adv_data = BDAddress(packet.getlayer(adv_class).InitA).value
+                    else:
+                        adv_data = b''.join([bytes(x) for x in packet.getlayer(adv_class).data])
                     return BleAdvPduReceived(
                         adv_type=SCAPY_CORR_ADV_INV[adv_class],
                         rssi=packet.metadata.rssi if packet.metadata is not None else 0,
